@@ -696,6 +696,30 @@ func c02Navigate(r *core.Rec, names []string, tn string, depth, maxVar int, ligh
 									} else if d := c02PrimDiff(gv.Coll[0], c.jval); d != "" {
 										r.Fail("primitive-value|"+kind+"|"+d, core.W{"type": tn, "variant": vi, "src": vs, "got": core.Short(gv.String(), 200), "json": fmt.Sprint(c.jval)})
 									}
+									// a date-like element is the value its JSON text denotes: equal to the literal of the same text
+									if js, isStr := c.jval.(string); isStr {
+										lit := ""
+										switch kind {
+										case "Date":
+											lit = "@" + js
+										case "DateTime", "Instant":
+											lit = "@" + js
+											if !strings.Contains(js, "T") {
+												lit += "T"
+											}
+										case "Time":
+											lit = "@T" + js
+										}
+										if lit != "" {
+											ls := s + " = " + lit
+											ge := eval(ls)
+											r.State("primitive-equals-literal|" + kind)
+											r.Nontrivial(tn, fmt.Sprint(vi), ls, ge.Class())
+											if !(ge.OK() && len(ge.Coll) == 1 && ge.Coll[0] == system.Boolean(true)) {
+												r.Fail("primitive-equals-literal|"+kind+"|"+ge.Class(), core.W{"type": tn, "variant": vi, "src": ls, "got": core.Short(ge.String(), 200)})
+											}
+										}
+									}
 								}
 								full(s, c)
 							}
